@@ -88,7 +88,12 @@ FragPairs == {Msg("ok", 0, <<Default("DATA_FRAG"), s>>) : s \in Variants2(Defaul
 \* a HEARTBEAT / GAP / DATA after a DATA_FRAG that leaves a partial sample in the buffer
 AfterFrag == {Msg("ok", 0, <<Default("DATA_FRAG"), s>>) :
                  s \in UNION {Variants1(Default(k), (CHOOSE x \in Kinds : x.d.k = k).a) \cup {Default(k)} : k \in {"HEARTBEAT", "HEARTBEAT_FRAG", "GAP", "DATA"}}}
-Messages == Single \cup HeaderVariants \cup Truncated \cup Prefixed \cup FragPairs \cup AfterFrag
+\* a GAP that leaves a hole behind the next expected change (which stays missing), then a HEARTBEAT: the reader's ACKNACK has
+\* to describe a missing set that is not contiguous and may reach past the 256 bits of a sequence number set
+AfterGap == {Msg("ok", 0, <<g, h>>) :
+                g \in {[Default("GAP") EXCEPT !.start = "NEXT1", !.base = b] : b \in {"NEXT2", "FAR"}} \cup {Default("GAP")},
+                h \in Variants1(Default("HEARTBEAT"), (CHOOSE x \in Kinds : x.d.k = "HEARTBEAT").a) \cup {Default("HEARTBEAT")}}
+Messages == Single \cup HeaderVariants \cup Truncated \cup Prefixed \cup FragPairs \cup AfterFrag \cup AfterGap
 
 (* what a well behaved peer can observe of the victim *)
 VARIABLES alive, serving, received
